@@ -34,6 +34,13 @@ CLAIMED = {
    note=TB + "`git credential`'s own parsing and re-serialisation is git's; net/url percent-decoding is exercised end-to-end only.",
    technique="Lean 4 proof (line-grammar round trip by induction) + regenerated-fact obligations + differential correspondence vs creds.Creds.buffer",
    ref="§5 C17, Appendix L"),
+ "C11": dict(
+   text="Lean theorems for ALL line lists of an OnlySafeKeys source: only documented keys reach the value map, no extension is ever registered, no key of a dangerous family (exec, credential helper, proxy, "
+        "ssh command, transfer agent, extension, remote url) is stored, git's own configuration wins; config.safeKeys and the LFSCONFIG list of the manual are regenerated and tied by decide; "
+        "model tied to readGitConfig in-process over the whole generated key space and end-to-end through hostile .lfsconfig files (worktree/index/HEAD) with a sentinel program.",
+   note=TB + "`git config -l` output format is git's; the model starts from the line list.",
+   technique="Lean 4 proof (case analysis of the key filter + fold invariant) + regenerated allow-list obligations + differential correspondence vs config.readGitConfig",
+   ref="§5 C11"),
 }
 PENDING_REASON = "check not built yet in this session (build in progress, see DESIGN.md §10); not claimed until its theorems and correspondence run"
 ALL = ["C%02d" % i for i in range(1, 21)]
